@@ -87,6 +87,9 @@ class Lifting(metaclass=ABCMeta):
 
         else:
             assert not is_active
+            if lifting_rate == 0.0:
+                # A unit with a vanishing factor derivative takes no part in the flow and must never be selected.
+                return
             self._negative_lifting_rates.append(-lifting_rate)
             self._associated_identifiers.append(associated_identifier)
 
